@@ -102,7 +102,7 @@ func (f *Subtract) Call(s *slip.Scope, args slip.List, depth int) (dif slip.Obje
 		case *slip.Bignum:
 			dif = (*slip.Bignum)(new(big.Int).Sub((*big.Int)(dif.(*slip.Bignum)), (*big.Int)(ta)))
 		case *slip.Ratio:
-			dif = (*slip.Ratio)(new(big.Rat).Sub((*big.Rat)(dif.(*slip.Ratio)), (*big.Rat)(ta)))
+			dif = ratReduce(new(big.Rat).Sub((*big.Rat)(dif.(*slip.Ratio)), (*big.Rat)(ta)))
 		case slip.Complex:
 			dif = slip.Complex(complex128(dif.(slip.Complex)) - complex128(ta))
 		}
